@@ -37,6 +37,16 @@ CHECKS = {
             "Seeded histories; after update() (or the accessor's own transaction) with the medium quiescent, every accessor is compared with the chip model's FIFOs, flags, OBSERVE_TX and IRQ line; read/clear/flush are checked for exact footprints.",
             "Trusts chip model decisions M1, M5, M6; exact-length reads only.",
             "5 C10"),
+    "C05": ("exploration",
+            "deterministic simulation of 2..10 network nodes as seeded-scheduled tasks (per-node MCU timing jitter, speed classes, clock skew, stalls) on a shared simulated air; history oracle at quiescence; separate lossy configuration",
+            "Every node is a real RF24Network/RoutingOnly object on its own chip model and simulated MCU task; a seeded scheduler decides all interleavings; messages are sent one at a time and the application logs of all nodes are compared with the sent message at quiescence (delivered once, intact, nobody else, fragmented on air). 15 % of runs inject packet/ACK loss and enforce only the safety clauses. Known finding KF-C05-frag-routed is matched narrowly.",
+            "Trusts chip/air model (M1-M4, M7-M10) and the timing envelope in evidence.assumptions; sampling, not proof.",
+            "5 C05"),
+    "C06": ("fault_enumeration",
+            "deterministic simulation with enumerated fragment delivery patterns (drop/duplicate/transpose/replay/interleave/stray x dequeue position) injected through a real node's radio and update(); seeded concurrent full-stack senders under loss",
+            "Layer (a) enumerates delivery patterns of reference-built fragment frames put on the air by scripted injector radios and received through the real node's chip, update() and queue; layer (b) runs 2-3 real concurrent senders under seeded packet/ACK loss. Oracle: every dequeued frame is one complete sent message, at most once.",
+            "Trusts the reference fragmenter (TMRh20 numbering) and chip model M4; claims nothing about which messages get through.",
+            "5 C06"),
     "C18": ("exploration",
             "deterministic simulation: seeded histories of FakeBLE configuration/hop/channel/with-block calls; every sniffed on-air payload decoded by an independent bit-serial BLE reference codec for the tuned channel",
             "Seeded call histories (plus the complete name-length x show_pa_level x PA x chunk-length grid in thorough); each advertisement is taken from the simulated air with the RF_CH of that transmission and de-whitened/CRC-checked/parsed by a spec-derived codec that shares no code with fake_ble.py; capacity arithmetic is recomputed independently. The history dimension (whitening seed vs. channel register) is what the simulator contributes; no fault is involved.",
